@@ -20,10 +20,50 @@ def run(ctx: Ctx) -> Report:
     rep = Report()
     ofs.run_mc(ctx, rep)
     ofs.run_c2s(ctx, rep, "C05", ctx.pick(12, 60), ctx.pick(30, 120), only=NOT_STATS)
+    long_warmups(ctx, rep)
     rep.assumptions += ["rows are read back from the ring at (position - k) % capacity; ring mechanics themselves are C06",
                         "capacity per stream >= rows written between two snapshots in the recorded configurations"]
     return rep
 
 
+LONG = [dict(bufsize=4, lstarts=6, N=1, nsteps=2), dict(bufsize=4, lstarts=9, N=2, nsteps=1), dict(bufsize=6, lstarts=7, N=3, nsteps=2),
+        dict(bufsize=3, lstarts=8, N=1, nsteps=3), dict(bufsize=5, lstarts=5, N=1, nsteps=1)]
+
+
+def long_warmup_case(algo: str, hp: dict, seed: int) -> dict:
+    import random
+    from .. import drive_offpolicy as dof
+    from .. import tables as tb
+    rng = random.Random(seed)
+    base = tb.gen_mdp(rng, "disc" if algo == "DQN" else "box", "disc")
+    cfg = tb.gen_ac_policy(rng, tb.with_stack(base, [tb.wrec("TimeLimit", n=3)]))
+    cfg.update(hp, an=2)
+    return dof.warmup_count_case(tb.EnvCache(), cfg, algo, seed)
+
+
+def long_warmups(ctx: Ctx, rep: Report):
+    """learning_starts > buffer_size (and = buffer_size): counters only, see drive_offpolicy.warmup_count_case"""
+    from .. import tracecheck
+    from ..core import Violation
+    cases = [dict(algo=a, hp=hp, seed=ctx.rng.randrange(2 ** 31)) for a in ("DQN", "SAC") for hp in (LONG if ctx.thorough else LONG[:3])]
+    items = [long_warmup_case(c["algo"], c["hp"], c["seed"]) for c in cases]
+    v = tracecheck.validate(ctx, "trace/Trace_Atoms.tla", items, "long_warmups")
+    rep.traces += len(items)
+    rep.parts["warm_ups_longer_than_the_buffer"] = {"cases": [i["meta"] for i in items], "accepted": len(v.accepted), "rejected": len(v.rejected)}
+    for i, (l, clauses) in sorted(v.rejected.items()):
+        rep.violations.append(Violation(f"C05:long_warmup:{cases[i]['algo']}:" + "+".join(clauses),
+                                        f"{cases[i]['algo']} {items[i]['meta']}: {clauses}", "long_warmup", cases[i]))
+
+
 def replay(ctx: Ctx, driver: str, case: dict) -> Report:
+    if driver == "long_warmup":
+        from .. import tracecheck
+        from ..core import Violation
+        rep = Report()
+        it = long_warmup_case(case["algo"], case["hp"], case["seed"])
+        v = tracecheck.validate(ctx, "trace/Trace_Atoms.tla", [it], "replay")
+        rep.traces = 1
+        for i, (l, clauses) in v.rejected.items():
+            rep.violations.append(Violation(f"C05:long_warmup:{case['algo']}:" + "+".join(clauses), str(it["meta"]), driver, case))
+        return rep
     return ofs.replay(ctx, "C05", case, only=NOT_STATS)
